@@ -669,8 +669,12 @@ fn check_decl_identifiers(file: &File, scope: &Scope) -> Result<File, Diagnostic
                         Some(typedef_decl) =>
                             // Not recursing on array type since it is allowed to
                             // have recursive structures, e.g. nested TLV types.
+                            // Enum, custom field and checksum element types cannot
+                            // be recursive: visit them so that they are declared
+                            // before their use in the generated code.
                             if matches!(&field.desc, FieldDesc::Typedef { .. }) ||
-                               matches!(&field.desc, FieldDesc::Array { size: Some(_), .. }) {
+                               matches!(&field.desc, FieldDesc::Array { size: Some(_), .. }) ||
+                               matches!(&typedef_decl.desc, DeclDesc::Enum { .. } | DeclDesc::CustomField { .. } | DeclDesc::Checksum { .. }) {
                                 bfs(typedef_decl, context, scope, diagnostics)
                             }
                     }
